@@ -66,7 +66,7 @@ def specs(rng, tier, wid, nw, env):
                 for pat in pats:
                     k += 1
                     if k % nw == wid: yield ('bin', op, pd, pa, rng.choice(P), pat, rng.choice(['w', 'w', 'w=a', 'w=b', 'a=b']), rng.getrandbits(48))
-    N = 3000 if q else 120000
+    N = 20000 if q else 300000
     for i in range(N):
         c = rng.random()
         if c < 0.35: yield ('bin', rng.choice(['mpf_add', 'mpf_sub', 'mpf_mul', 'mpf_div']), rng.choice(P), rng.choice(P), rng.choice(P), rng.choice(pats), rng.choice(['w', 'w=a', 'w=b', 'a=b']), rng.getrandbits(48))
